@@ -4,8 +4,12 @@
    trained models are handed back to brew.  The theorems say that the results do not depend on them.
    Statements only; proofs in the files of the owning models. *)
 From Coq Require Import Permutation.
+<<<<<<< HEAD
 From Mokaverif Require Import Model.Base Model.Orders Model.Grouping Model.MatchDecoy
   Proofs.OrdersP Proofs.GroupingP Proofs.MatchDecoyP.
+=======
+From Mokaverif Require Import Model.Base Model.Orders Model.Grouping Model.Brew Proofs.OrdersP Proofs.GroupingP Proofs.BrewEnsP.
+>>>>>>> brew-ensemble
 Open Scope nat_scope.
 
 (* models fed back in any order (or delivered by worker threads in any order) are used in fold order *)
@@ -40,6 +44,39 @@ Theorem C08_set_order_grouping : forall (P : Type) (peqb : P -> P -> bool), eqb_
   out_sub P out out' /\ out_sub P out' out.
 Proof. exact read_fasta_order_free. Qed.
 Print Assumptions C08_set_order_grouping.
+
+(* brew(ensemble=True) (R2.22): the average is taken over the models IN ASCENDING FOLD ORDER — a fixed list,
+   whatever order the worker threads or the caller delivered the fitted models in (this is the sort that the
+   seeded change C08-4 removes from the ensemble branch) *)
+Theorem C08_ensemble_in_fold_order : forall c k keys (fitted : list (nat * list Z)),
+  exists sorted, sorted = or_sort_models fitted /\ Permutation sorted fitted /\
+    Sorted.StronglySorted (fun a b => fst a <= fst b) sorted /\
+    bw_brew_scores_ens c k keys fitted =
+      match bw_split keys k with Err e => Err e | Ok _ => bw_predict_ens c (length keys) (map snd sorted) end.
+Proof. exact brew_ens_in_fold_order. Qed.
+Print Assumptions C08_ensemble_in_fold_order.
+
+(* in EXACT arithmetic any order of the models gives the same average ... *)
+Theorem C08_ensemble_any_order_exact : forall c n raws raws', Permutation raws raws' ->
+  bw_predict_ens c n raws = bw_predict_ens c n raws'.
+Proof. exact ens_any_order_exact. Qed.
+Print Assumptions C08_ensemble_any_order_exact.
+
+(* ... and so does binary64 while the absolute values add up to less than 2^53 (fl53 = rounding of an integer
+   to 53 significant bits, ties to even; float_sum = np.add.reduce over integer-valued doubles in list order):
+   this is the contract under which the harness compares the ensemble scores with the model exactly *)
+Theorem C08_ensemble_float_contract : forall l a, (Z.abs a + ens_abs_sum l < 2 ^ 53)%Z ->
+  float_sum l a = fold_left Z.add l a.
+Proof. exact ens_float_sum_exact. Qed.
+Print Assumptions C08_ensemble_float_contract.
+
+(* ... but NOT in binary64 in general: 2^53 + 1 + 1 is 2^53 from the left and 2^53 + 2 from the right.  Hence
+   "models sorted by fold" is part of the function, and the history check compares scores bit for bit *)
+Example C08_ensemble_float_order_matters :
+  float_sum [1; 1]%Z (2 ^ 53)%Z = (2 ^ 53)%Z /\
+  float_sum [1; 2 ^ 53]%Z 1%Z = (2 ^ 53 + 2)%Z /\
+  Permutation [2 ^ 53; 1; 1]%Z [1; 1; 2 ^ 53]%Z.
+Proof. exact ens_float_order_matters. Qed.
 
 Example C08_example :
   or_sort_models [(3, 30); (1, 10); (2, 20)] = [(1, 10); (2, 20); (3, 30)] /\
